@@ -194,9 +194,14 @@ class Gen:
             if a is None: return
             v = self.pool[a][0]
             if self.integer(0, 3) == 0:
+                if self.integer(0, 2):
+                    # prefer operands where the taken axis is not the last one and has more than one entry
+                    a2 = self.pick(lambda v, e: v.ndim >= 2 and max(v.shape[:-1]) >= 2)
+                    if a2 is not None: a = a2; v = self.pool[a][0]
                 ax = self.integer(-v.ndim, v.ndim - 1)
                 n = v.shape[ax]
-                if self.try_add('take', [a], dict(indices=[self.integer(-n, n - 1) for _ in range(self.integer(1, 3))], axis=ax)): self.features.add('take')
+                ind = [self.choice([-1, -n, n - 1, 0, self.integer(-n, n - 1), self.integer(-n, n - 1)]) for _ in range(self.integer(1, 3))] if n else []
+                if self.try_add('take', [a], dict(indices=ind, axis=ax)): self.features.add('take')
                 return
             ix = []
             used_adv = False
